@@ -75,11 +75,15 @@ func makeMap(input Inputs) (vals.Map, error) {
 	return m, errMakeMap
 }
 
-func conj(li vals.List, more ...any) vals.List {
+func conj(li vals.List, more ...any) (vals.List, error) {
+	if li == nil {
+		// $nil is accepted for any nil-able Go type when scanning arguments.
+		return nil, errs.BadValue{What: "first argument to conj", Valid: "list", Actual: "$nil"}
+	}
 	for _, val := range more {
 		li = li.Conj(val)
 	}
-	return li
+	return li, nil
 }
 
 func assoc(a, k, v any) (any, error) {
